@@ -11,10 +11,14 @@ import (
 func init() {
 	core.Register(&core.Info{
 		ID: "C16", Level: "exploration",
-		Rule: "four case families over one index space. names: (measurement, related measurement) pairs through GCETcbObjectName (SNP, TDX) and GCETcbURL against the monitor's own name model and inverse; " +
+		Rule: "eight case families over one index space (the last four appended by the audit of the workload's dimensions; the first four keep their case numbers). names: (measurement, related measurement) pairs through GCETcbObjectName (SNP, TDX) and GCETcbURL against the monitor's own name model and inverse; " +
 			"events: a real snapshot endorse run of a generated image, its <image>.evts.pb decoded by an independent SP800-155 decoder and by the repository's, then fed through a generated boot event log into extract.Endorsement; " +
 			"precedence: one point of the product {event-log shape} x {manufacturer filter} x {quote format x entry} x {provider} x {getter} x {forced fetch}, its event log kept on a drawn medium (regular file, named pipe, symbolic link to either), run through extract.Endorsement (twice) and, for a third, through the extract command; " +
-			"the checker works on the recorded URL list and the returned bytes; confine: (GUID, UCS-2 name) through EfiVarFSReader.ReadVariable and through an event-log variable locator against a scratch efivarfs tree with symlinks and outside canaries. " +
+			"the checker works on the recorded URL list and the returned bytes; confine: (GUID, UCS-2 name) through EfiVarFSReader.ReadVariable and through an event-log variable locator against a scratch efivarfs tree with symlinks and outside canaries; " +
+			"sequences: 3-6 calls of extract.Endorsement that use ONE event-log path, efivarfs root and set of variable names whose contents change between the calls (one source changed per step: same again, forced fetch toggled, variables rewritten / removed / created under their names, log rewritten, quote refilled, provider changed, getter changed, filter changed, all new), through one kept Options / variable reader / getter / provider value of which only the changed fields are re-assigned (quote buffer refilled in place) or through fresh values per call, returned slices edited by the caller or kept and compared after the later calls; " +
+			"concurrent: 4-8 independent precedence cases released together on as many goroutines (4 rounds each), beside a tight loop over GCETcbObjectName/GCETcbURL per goroutine and reads through one shared EfiVarFSReader, every call judged afterwards by the sequential rules; " +
+			"edges: recognised quote formats whose measurement field is 0/1/47/49/64/96 bytes long (supplied and from the provider), equivalent encodings of documented formats (protobuf field order, padded length varints, upper-case hex, base64 in lines), events whose platform manufacturer is not their firmware manufacturer and a foreign manufacturer filter, the efivarfs root and event-log path respelled (trailing / doubled slash, dot and dot-dot segments, directory symlink, relative; a directory as log), variable names that lead into a directory next to the root whose name starts with the root's; " +
+			"events-again: 2-3 snapshot endorse runs of different images into one version-control double (same or another image name) from one kept endorse.Context whose Image is re-assigned, or from fresh Contexts, each run's events judged against that run's image. " +
 			"non-trivial = distinct (family, input class, outcome class) cells in which an oracle rule had something to decide",
 		Assumptions: []string{
 			"hex(measurement) in the object name is lower case (as the published bucket objects are); the name model is family prefix ovmf_x64_csm / sevsnp|tdx / hex .binarypb",
@@ -25,6 +29,12 @@ func init() {
 			"the event log is evidence wherever it is kept: half of the generated logs (all three families that feed a log to extract.Endorsement) are on a regular file, the rest on a named pipe - the stand-in for the securityfs file /sys/kernel/security/tpm0/binary_bios_measurements, whose stat size is 0 whatever it holds - or behind a relative symbolic link to either; a pipe hands the whole log over in one write on open and then ends, and a case whose pipe did not take the log whole is skipped and counted, never judged; logs larger than the largest pipe this process may size fall back to a regular file",
 			"quotes are built from go-sev-guest's test chain and go-tdx-guest's sample quote in the documented formats; a QuoteV4 proto (not a documented format) carries no expectation about recognition; arbitrary bytes belong to C07",
 			"TOCTOU symlink swaps are schedules and are not generated; the scratch tree is static during a case",
+			"a call is judged by the sources it was given and by nothing else: what ran before it in the process, what runs beside it on other goroutines (with inputs of their own) and whether its Options / reader / getter / provider / endorse.Context values are fresh or were used before make no difference to what the property demands of it; the quantifier names inputs and configurations, not schedules, so nothing is demanded about an interleaving itself and the scratch files of a call are never changed while it runs",
+			"a caller that keeps an Options value re-assigns only the fields it means to change and refills its quote buffer in place; bytes returned to the caller stay what was returned unless the caller writes to them (rule earlier-result-changed-by-a-later-call)",
+			"a recognised quote whose measurement field is not exactly 48 bytes long names no object: no URL may be derived from it, and nothing is demanded about an entry it may carry",
+			"equivalent encodings carry the expectations of the plain encoding: the same protobuf message with its fields in another order or its lengths as padded varints, hex with upper-case digits, base64 broken into 76-column lines (all accepted by the unchanged decoders)",
+			"the manufacturer filter is exact equality with the event's FIRMWARE manufacturer string (as the option's name and the anchors say); the platform manufacturer string does not take part",
+			"the efivarfs root and the event-log location are places, not spellings: a trailing or doubled slash, dot segments, a directory symlink on the way or a relative path name the same root / log",
 			"the strace monitor runs in the thorough tier only and is skipped with a note when strace cannot start",
 		},
 		ShardsQuick: 8, ShardsThor: 16, TimeoutS: 600, TimeoutThor: 3000, Run: run,
@@ -83,6 +93,45 @@ func run(c *core.Ctx) {
 		}
 	}
 	c.Count("precedence/command-line-runs", ps.cliRuns)
+	base += nPrec
+	// families appended by the audit of the workload's dimensions (audit.go)
+	var as auditStats
+	nSeq, nConc, nEdge := c.N(500, 5000), c.N(64, 480), c.N(2000, 20000)
+	for k := 0; k < nSeq; k++ {
+		if i := base + k; c.Mine(i) {
+			runSeq(c, sc, i, &as)
+		}
+	}
+	base += nSeq
+	for k := 0; k < nConc; k++ {
+		if i := base + k; c.Mine(i) {
+			runConc(c, sc, w, i, &as)
+		}
+	}
+	base += nConc
+	for k := 0; k < nEdge; k++ {
+		if i := base + k; c.Mine(i) {
+			runEdge(c, sc, w, i, k, &as)
+		}
+	}
+	base += nEdge
+	nEvAgain := c.N(32, 320)
+	for k := 0; k < nEvAgain; k++ {
+		if i := base + k; c.Mine(i) {
+			runEventsAgain(c, sc, i, &as)
+		}
+	}
+	c.Count("events-again/later-runs-judged", as.evAgain)
+	c.Count("concurrent/object-name-calls-beside-other-goroutines", 3*as.concNames)
+	c.Count("concurrent/extractions-judged", as.concCalls)
+	c.Count("concurrent/reads-through-the-shared-reader-judged", as.concReads)
+	c.Count("sequence/fields-of-a-kept-Options-left-as-the-earlier-call-left-them", as.seqFieldsLeft)
+	c.Count("sequence/same-inputs-again-compared", as.seqAgain)
+	c.Count("sequence/kept-results-compared-after-later-calls", as.seqKeptResults)
+	c.Count("sequence/local-evidence-returned-where-other-evidence-was-before", as.seqReplaced)
+	c.Count("sequence/good-call-after-failed-call", as.seqOKAfterFail)
+	c.Count("edge/odd-measurement-cases", as.edgeOdd)
+	c.Count("edge/sibling-directory-names", as.edgeSibling)
 	if c.Shard == 0 && c.Only < 0 {
 		probeNilProvider(c)
 	}
@@ -98,6 +147,19 @@ func run(c *core.Ctx) {
 	c.Floor("confine/inside-variable-returned", cs.inside > 0)
 	c.Floor("confine/hostile-name-refused", cs.refused > 0)
 	c.Floor("confine/variable-read-through-event-log", cs.viaLog > 0)
+	c.Floor("sequence/kept-Options-called-again-with-some-fields-left-alone", as.seqKeptSteps > 0 && as.seqFieldsLeft > 0)
+	c.Floor("sequence/fresh-values-at-reused-places", as.seqFreshSteps > 0)
+	c.Floor("sequence/local-evidence-returned-from-a-place-that-held-other-evidence-before", as.seqReplaced > 0)
+	c.Floor("sequence/rewritten-variable-returned-under-its-old-name", as.seqReplacedVar > 0)
+	c.Floor("sequence/good-call-after-a-failed-call", as.seqOKAfterFail > 0)
+	c.Floor("sequence/kept-results-compared-after-later-calls", as.seqKeptResults > 0)
+	c.Floor("concurrent/batches-judged", as.concBatches > 0 && as.concCalls > 0 && as.concReads > 0)
+	c.Floor("edge/odd-measurement-quotes-run-with-and-without-forced-fetch", as.edgeOdd > 0 && as.edgeOddForced > 0)
+	c.Floor("edge/entry-returned-from-an-equivalent-encoding", as.edgeEnc > 0)
+	c.Floor("edge/firmware-manufacturer-selected-against-the-platform-manufacturer", as.edgeSplit > 0)
+	c.Floor("edge/evidence-returned-under-respelled-places", as.edgeSpelled > 0 && as.edgeSpelledConf > 0)
+	c.Floor("edge/names-into-the-sibling-directory-run", as.edgeSibling > 0)
+	c.Floor("events-again/second-image-endorsed-from-a-kept-Context-and-its-events-judged", as.evAgainKept > 0)
 }
 
 // probeNilProvider records (as a note, never a verdict) what the extract command does on a host
